@@ -523,6 +523,8 @@ def main(argv=None):
     r = sub.add_parser("replay")
     r.add_argument("path")
     s = sub.add_parser("selftest")
+    s.add_argument("--stored", action="store_true", help="run the stored blind seeded changes (must be reported) and benign rewrites (must pass)")
+    s.add_argument("--jobs", type=int, default=6)
     s.add_argument("--only", default=None)
     s.add_argument("--tier", default="quick")
     a = ap.parse_args(argv)
@@ -547,6 +549,8 @@ def main(argv=None):
         sys.exit(0)
     if a.cmd == "selftest":
         from . import selftest
+        if a.stored:
+            sys.exit(selftest.stored(a.only, a.tier, a.jobs))
         sys.exit(selftest.main(a.only, a.tier))
 
 
